@@ -195,12 +195,22 @@ func runOnce(c *pkit.Ctx, files map[string]string, v variant) (string, string, e
 	if res.Exit != 0 {
 		return "", "", fmt.Errorf("EXIT %d: %s", res.Exit, pkit.FirstLines(res.Stderr, 3))
 	}
+	lastQ, lastQText = "", ""
+	if qb, err := os.ReadFile(filepath.Join(dir, "q", gorun.DerivedFile)); err == nil {
+		lastQ, lastQText = gorun.Sha(qb, 16), string(qb)
+	}
+	if v.name == "q-alone" {
+		return lastQ, lastQText, nil
+	}
 	b, err := os.ReadFile(filepath.Join(dir, "p", gorun.DerivedFile))
 	if err != nil {
 		return "", "", fmt.Errorf("no derived file for p")
 	}
 	return gorun.Sha(b, 16), string(b), nil
 }
+
+// lastQ is the hash of q/derived.gen.go after the last run ("" when the run did not write it).
+var lastQ, lastQText string
 
 func firstDiffLine(a, b string) string {
 	la, lb := strings.Split(a, "\n"), strings.Split(b, "\n")
@@ -266,6 +276,13 @@ func TestProp(t *testing.T) {
 		if stale != "" {
 			withStale["p/"+gorun.DerivedFile] = stale
 		}
+		// q on its own: what the same invocation has done for p before must not show in q's file
+		qBase, qBaseText, qerr := runOnce(c, pr.files, variant{"q-alone", "", []string{"./q"}})
+		c.Rep.AddExtra("goderive_runs", 1)
+		if qerr != nil && !strings.HasPrefix(qerr.Error(), "EXIT") {
+			c.Rep.Inconcl("q alone: %v", qerr)
+			return
+		}
 		for vi, v := range variants[1:] {
 			input := pr.files
 			if stale != "" && vi%2 == int(c.Seed+int64(c.Shard))%2 {
@@ -282,6 +299,12 @@ func TestProp(t *testing.T) {
 					return
 				}
 				c.Rep.Inconcl("variant %s: %v", v.name, err)
+				return
+			}
+			if qerr == nil && qBase != "" && lastQ != "" && lastQ != qBase {
+				c.Fail(rt, map[string]string{"check": "invocation-context-q", "variant": v.name},
+					fmt.Sprintf("derived.gen.go of package q (which imports p) depends on the invocation: [./q] vs (cwd %q) %v\nfirst difference at %s", v.cwd, v.args, firstDiffLine(qBaseText, lastQText)),
+					pr.files, map[string]any{"variant": v.name})
 				return
 			}
 			if h != base {
@@ -366,5 +389,17 @@ func TestReplay(t *testing.T) {
 	}
 	if len(seen) != 1 {
 		t.Fatalf("still fails: %d different outputs", len(seen))
+	}
+	qseen := map[string]bool{}
+	if h, _, err := runOnce(c, files, variant{"q-alone", "", []string{"./q"}}); err == nil && h != "" {
+		qseen[h] = true
+		for _, v := range variants[1:] {
+			if _, _, err := runOnce(c, files, v); err == nil && lastQ != "" {
+				qseen[lastQ] = true
+			}
+		}
+		if len(qseen) != 1 {
+			t.Fatalf("still fails: %d different outputs for q", len(qseen))
+		}
 	}
 }
